@@ -270,7 +270,10 @@ def astep (cb : List Tok → List Tok) (a : ASt) (t : Tok) : ASt :=
   | .colon =>
     if t = .comma then outLeft t { a with mode := .normal, wordok := true } else outLeft t a
   | .angle =>
-    if t = .left then outLeft t { (gotaddr cb a) with mode := .phrase } else addrLeft t a
+    if t = .left then outLeft t { (gotaddr cb a) with mode := .phrase }
+    else match t with
+      | .comment _ => outLeft t a      -- comments inside <...> are kept out of the address (a66f18c)
+      | _ => addrLeft t a
   | .phrase =>
     if isPhraseTok t then outLeft t a
     else astepNormal cb { a with mode := .normal, wordok := false } t
